@@ -2763,8 +2763,24 @@ impl LineBuf {
 					match motion {
 						Motion::BackwardChar => target.sub(1),
 						Motion::ForwardChar => {
+							if !self.is_selecting() && self.cursor.exclusive && self.grapheme_at(target.get()) == Some("\n") {
+								// On the newline of an empty line: there is nothing to move over
+								if target.get() == self.cursor.get() {
+									return MotionKind::Null
+								}
+								break
+							}
 							if !self.is_selecting() && self.cursor.exclusive && self.grapheme_at(target.ret_add(1)) == Some("\n") {
-								return MotionKind::Null
+								if verb.is_some() {
+									// An operator takes the last character of the line too: its range ends at the newline
+									target.add(1);
+									break
+								}
+								if target.get() == self.cursor.get() {
+									return MotionKind::Null
+								}
+								// Moved as far as the line allows
+								break
 							}
 							if self.is_selecting() && self.grapheme_at(target.get()) == Some("\n") {
 								break
